@@ -6,11 +6,11 @@ namespace KawinV.Drv.C16
 open KawinV.Proto KawinV.Gen.C16 KawinV.Elastic
 
 /-! ### arrays <-> index functions -/
-def t2Of (a : Array Float) : T2 Float := fun i j => a.getD (3 * i.val + j.val) 0.0
-def t4Of (a : Array Float) : T4 Float := fun i j k l => a.getD (27 * i.val + 9 * j.val + 3 * k.val + l.val) 0.0
-def m6Of (a : Array Float) : M6 Float := fun i j => a.getD (6 * i.val + j.val) 0.0
-def v3Of (a : Array Float) : V3 Float := fun i => a.getD i.val 0.0
-def v6Of (a : Array Float) : V6 Float := fun i => a.getD i.val 0.0
+@[noinline] def t2Of (a : Array Float) : T2 Float := fun i j => a.getD (3 * i.val + j.val) 0.0
+@[noinline] def t4Of (a : Array Float) : T4 Float := fun i j k l => a.getD (27 * i.val + 9 * j.val + 3 * k.val + l.val) 0.0
+@[noinline] def m6Of (a : Array Float) : M6 Float := fun i j => a.getD (6 * i.val + j.val) 0.0
+@[noinline] def v3Of (a : Array Float) : V3 Float := fun i => a.getD i.val 0.0
+@[noinline] def v6Of (a : Array Float) : V6 Float := fun i => a.getD i.val 0.0
 
 def f3 : List (Fin 3) := List.finRange 3
 def f6 : List (Fin 6) := List.finRange 6
@@ -21,9 +21,14 @@ def l6 (t : M6 Float) : List Float := f6.flatMap fun i => f6.map fun j => t i j
 def lv6 (t : V6 Float) : List Float := f6.map t
 
 /-- evaluate every entry once -/
-def memo2 (t : T2 Float) : T2 Float := t2Of (l2 t).toArray
-def memo4 (t : T4 Float) : T4 Float := t4Of (l4 t).toArray
-def memo6 (t : M6 Float) : M6 Float := m6Of (l6 t).toArray
+@[noinline] def tab2 (t : T2 Float) : Array Float := (l2 t).toArray
+@[noinline] def tab4 (t : T4 Float) : Array Float := (l4 t).toArray
+@[noinline] def tab6 (t : M6 Float) : Array Float := (l6 t).toArray
+/-- the evaluation hooks of the model: tabulate once (boxes make this strict) -/
+def box2 (t : T2 Float) : Box2 Float := let a := tab2 t; ⟨t2Of a⟩
+def box4 (t : T4 Float) : Box4 Float := let a := tab4 t; ⟨t4Of a⟩
+def box6 (t : M6 Float) : Box6 Float := let a := tab6 t; ⟨m6Of a⟩
+def ev : Eval Float := ⟨box2, box4, box6⟩
 
 /-! ### np.linalg.inv of a 6x6 array: Gauss–Jordan with partial pivoting -/
 def gaussJordan (n : Nat) (a : Array (Array Float)) : Array (Array Float) := Id.run do
@@ -46,12 +51,13 @@ def gaussJordan (n : Nat) (a : Array (Array Float)) : Array (Array Float) := Id.
         m := m.setIfInBounds i (Array.zipWith (fun x y => x - f * y) ri rk)
   return m.map fun r => r.extract n (2 * n)
 
-def inv6 (c : M6 Float) : M6 Float :=
+@[noinline] def inv6Arr (c : M6 Float) : Array Float :=
   let a : Array (Array Float) := Array.ofFn (n := 6) fun i => Array.ofFn (n := 6) fun j => c i j
-  let r := gaussJordan 6 a
-  fun i j => (r.getD i.val #[]).getD j.val 0.0
+  (gaussJordan 6 a).flatMap id
 
-def inv4 : T4 Float → T4 Float := fun c => memo4 (invert4 inv6 mandelVec c)
+def inv6 (c : M6 Float) : Box6 Float := let a := inv6Arr c; ⟨m6Of a⟩
+
+def inv4 : T4 Float → T4 Float := invert4 inv6 mandelVec
 
 /-! ### generated definitions -/
 def pairFn : Nat → Option (Float → Float → List Float)
@@ -94,13 +100,13 @@ def genBeta : P String := do
 /-- el.conv6 c6(36) → convert2To4 (81) | convert4To2 of it (36) -/
 def conv6 : P String := do
   let c ← flts
-  let c4 := memo4 (convert2To4 (m6Of c.toArray))
+  let c4 := (box4 (convert2To4 (m6Of c.toArray))).f
   pure (flist (l4 c4) ++ " " ++ flist (l6 (convert4To2 c4)))
 
 /-- el.conv4 c4(81) → convert4To2 (36) | convert2To4 of it (81) -/
 def conv4 : P String := do
   let c ← flts
-  let c2 := memo6 (convert4To2 (t4Of c.toArray))
+  let c2 := (box6 (convert4To2 (t4Of c.toArray))).f
   pure (flist (l6 c2) ++ " " ++ flist (l4 (convert2To4 c2)))
 
 /-- el.vec v(6) t(9) → vecTo2 v (9) | rank2ToVec t (6) -/
@@ -142,11 +148,11 @@ def energy : P String := do
     { n := v3Of (nvec_all p t).toArray, w := w }
   let r := v3Of r.toArray
   let cM := t4Of cM.toArray; let cP := t4Of cP.toArray; let eig := t2Of e.toArray
-  let D := memo4 (Dijkl (ohmOf cM) betaN nodes dA r)
-  let S := memo4 (Sijmn cM D)
+  let D := (box4 (Dijkl (ohmOf cM) betaN nodes dA r)).f
+  let S := (box4 (Sijmn cM D)).f
   let V := volume r
   pure (flist (l4 S) ++ " " ++
-        flist [energyEllipsoid cM S eig V, energyBohm inv4 cM cP S eig V, V])
+        flist [energyEllipsoid cM S eig V, energyBohm ev inv4 cM cP S eig V, V])
 
 /-! ### setter sequences -/
 def descOf : Nat → Option Desc
@@ -192,12 +198,6 @@ def pop : P (Op Float) := do
   | 17 => do let e ← pt2; pure (.setStressMat e)
   | _ => failure
 
-def memoState (s : State Float) : State Float :=
-  { s with cM := memo4 s.cM, cP := memo4 s.cP, rot := memo2 s.rot, rotP := memo2 s.rotP,
-           stress0 := memo2 s.stress0, eig := memo2 s.eig,
-           p := { cM4 := memo4 s.p.cM4, cM2 := memo6 s.p.cM2, cP4 := memo4 s.p.cP4, cP2 := memo6 s.p.cP2,
-                  stress := memo2 s.p.stress, strain := memo2 s.p.strain } }
-
 /-- `compute` for one radius triple with a Khachaturyan / constant description -/
 def computeSimple (s : State Float) (r : V3 Float) : Float :=
   match s.desc with
@@ -213,8 +213,8 @@ def seq : P String := do
   let ops ← lst pop
   let r ← pv3
   let (s, flags) := ops.foldl (fun (acc : State Float × String) op =>
-      let (s', ok) := step inv6 acc.1 op
-      (memoState s', acc.2 ++ bstr ok)) ((init d : State Float), "x")
+      let (s', ok) := step ev inv6 acc.1 op
+      (s', acc.2 ++ bstr ok)) ((init d : State Float), "x")
   pure (s!"{flags} {descNat s.desc} " ++ flist (l4 s.p.cM4) ++ " " ++ flist (l6 s.p.cM2) ++ " " ++
         flist (l4 s.p.cP4) ++ " " ++ flist (l6 s.p.cP2) ++ " " ++ flist (l2 s.p.stress) ++ " " ++
         flist (l2 s.p.strain) ++ " " ++ flist (l2 s.eig) ++ " " ++ fout (computeSimple s r))
